@@ -50,6 +50,7 @@ type Env struct {
 	pathTag   string
 	tail      bool
 	ownAssume []*Term
+	ownAuto   func() []*Term
 	noSplit   bool
 	fnPkg     string // package of the function under verification (invariants of its types are concrete)
 	forceConcreteInv bool
